@@ -30,8 +30,9 @@ import GS.OpsPbProp
 import GS.OpsWatch
 import GS.OpsSearch
 import GS.OpsIntCode
+import GS.OpsTextBytes
 /-! Union of all op tables (one per model file group). -/
 namespace GS.OpsAll
 def table : List (String × (List String → Option String)) := GS.Ops.table ++ GS.OpsBf.table ++ GS.OpsPb.table ++ GS.OpsConstr.table ++ GS.OpsCdcl.table ++ GS.OpsOptim.table ++ GS.OpsMaxSat.table ++ GS.OpsAmo.table ++ GS.OpsExplain.table ++ GS.OpsBfModel.table ++ GS.OpsChan.table ++ GS.OpsEnum.table ++ GS.OpsMaxSatSigned.table ++ GS.OpsBfUnique.table ++ GS.OpsFormats.table ++ GS.OpsSimplify.table ++ GS.OpsAnalyze.table ++
-  GS.OpsAppend.table ++ GS.OpsOptimSigned.table ++ GS.OpsTrail.table ++ GS.OpsCpAnalyze.table ++ GS.OpsEnumRound.table ++ GS.OpsAssume.table ++ GS.OpsSolverPrint.table ++ GS.OpsOpbFull.table ++ GS.OpsTrailPb.table ++ GS.OpsQueue.table ++ GS.OpsCnfBytes.table ++ GS.OpsPbProp.table ++ GS.OpsWatch.table ++ GS.OpsSearch.table ++ GS.OpsIntCode.table
+  GS.OpsAppend.table ++ GS.OpsOptimSigned.table ++ GS.OpsTrail.table ++ GS.OpsCpAnalyze.table ++ GS.OpsEnumRound.table ++ GS.OpsAssume.table ++ GS.OpsSolverPrint.table ++ GS.OpsOpbFull.table ++ GS.OpsTrailPb.table ++ GS.OpsQueue.table ++ GS.OpsCnfBytes.table ++ GS.OpsPbProp.table ++ GS.OpsWatch.table ++ GS.OpsSearch.table ++ GS.OpsIntCode.table ++ GS.OpsTextBytes.table
 end GS.OpsAll
